@@ -326,8 +326,14 @@ def call_np(ip, name, args, kwargs, lineno):
         a = as_arr(ip, a)
         p = conc(pos)
         M.use("np.insert (scalar position)")
-        if isinstance(v, (SArr, list)) or isinstance(pos, (SArr, list)):
-            raise Unsupported("np.insert with array position/values")
+        if isinstance(pos, list):
+            pos = ip.list_to_arr(pos)
+        if isinstance(v, list):
+            v = ip.list_to_arr(v)
+        if isinstance(pos, SArr):
+            return np_insert_multi(ip, a, pos, v, lineno)
+        if isinstance(v, SArr):
+            raise Unsupported("np.insert of an array at a scalar position")
         f = a.snapshot()
         if isinstance(p, int) and p == 0:
             if hasattr(a, "prefix") and conc(v) == 0:
@@ -570,6 +576,38 @@ def concat_list(arrs):
     r = SArr.fresh(offs[-1], at, kind, arrs[0].enc)
     # ghost: the parts (frozen content) - flatnonzero / boolean indexing with a concatenated mask is defined part by part
     r.concat_parts = [SArr.fresh(l, f, a.kind) for a, f, l in zip(arrs, fs, lens)]
+    return r
+
+
+def np_insert_multi(ip, a, idxs, vals, lineno):
+    """np.insert(a, idxs, vals) for a strictly increasing index array idxs in [0, n] (both obligations) and vals a scalar or an array of
+    the same length: result length n + m; inserted element j sits at position idxs[j] + j; the originals keep their order.
+    Given through a Skolem function e(q) = number of inserted positions strictly before q (unique because idxs[j] + j is strictly
+    increasing):  result[q] = vals[e(q)] if idxs[e(q)] + e(q) == q else a[q - e(q)].  EXACT under the obligations."""
+    M.use("np.insert (strictly increasing index array)")
+    c = ip.ctx
+    fi, m, n = idxs.snapshot(), idxs.length, a.length
+    fn = c.fname
+    c.oblige("%s:insert.inbounds@L%s" % (fn, lineno), Forall(lambda k: Implies(in_range(k, m), And(I(fi(k)) >= 0, I(fi(k)) <= I(n)))), "safety", lineno,
+             "insertion points are inside the array")
+    c.oblige("%s:insert.increasing@L%s" % (fn, lineno), Forall(lambda k: Implies(And(in_range(k, m), k + 1 < I(m)), I(fi(k)) < I(fi(k + 1)))), "safety", lineno,
+             "insertion points strictly increasing (equal points would be inserted in argument order: not modelled)")
+    fa = a.snapshot()
+    if isinstance(vals, SArr):
+        M.same_len(m, vals.length, "insert.values", lineno)
+        fv = vals.snapshot()
+    else:
+        fv = lambda k: vals
+    e = c.fresh_fun("inse")
+    total = conc(I(n) + I(m))
+    c.assume(Forall(lambda q: Implies(in_range(q, total),
+                                      And(e(q) >= 0, e(q) <= I(m),
+                                          Implies(e(q) > 0, I(fi(e(q) - 1)) + e(q) - 1 < I(q)),
+                                          Implies(e(q) < I(m), I(fi(e(q))) + e(q) >= I(q)))),
+                    triggers=[e], name="insert.count"))
+    is_ins = lambda q: And(e(I(q)) < I(m), I(fi(e(I(q)))) + e(I(q)) == I(q))
+    r = SArr.fresh(total, lambda q: Ite(is_ins(q), fv(e(I(q))), fa(I(q) - e(I(q)))), a.kind, a.enc)
+    r.insert_of = (e, fi, m, n)
     return r
 
 
